@@ -19,7 +19,7 @@ EXPLANATION = (
     "_eom_buffer_time = custom_buffer_time or 2*rise_time; Sequence.enable/modify record what _process_eom_parameters computed (C04). "
     "NOT decided: the drift-correction populations (emulator physics)."
 )
-ASSUMPTIONS = ["def-use provenance inside one function"]
+ASSUMPTIONS = ["formulas, guards and sibling code are matched on the symbolic normal form (pstatic/sym.py): temporaries, private helpers, conditional forms and operand order do not matter; state mutation between two reads of one access path is not modelled (orderings are taken from the program order of the logged calls)"]
 
 EOM = "pulser.channels.eom.RydbergEOM"
 CH = "pulser.channels.base_channel.Channel"
